@@ -310,6 +310,8 @@ def mr_simple(draw, dirs=('req', 'rpy'), parse_only=False, svcs=LOGIX_SVCS, max_
             m['offset'] = draw(uint(32))
         elif svc in ('write_tag', 'write_frag'):
             m['data'] = draw(typed(max_bytes=max_bytes))
+            if m['data'].get('raw') == '':      # a write without any data octet is not generated
+                m['data']['raw'] = '00'
             n = len(m['data'].get('values', ())) or 1
             m['elements'] = draw(st.one_of(st.just(n), uint(16)))
             if svc == 'write_frag':
